@@ -69,7 +69,7 @@ class StubPythia:
       raise self.fail
     d = pythia_service_pb2.EarlyStopDecisions()
     for tid in req.trial_ids:
-      d.decisions.add(id=tid, should_stop=False)
+      d.decisions.add(id=tid, should_stop=False, reason='keep going')
     return d
 
 
@@ -93,8 +93,37 @@ def make_trial(i, state, client='', n_meas=0, final=None, reason='', study=S, x=
   return t
 
 
-def new_servicer(pythia=None, database_url=None):
-  return vizier_service.VizierServicer(database_url=database_url, default_pythia_service=pythia or StubPythia())
+# ---- harness clock: vizier_service reads the wall clock in two places (operation timestamps, recycle period) ------
+CLOCK = [1000]        # seconds since the epoch; harnesses may advance it
+import datetime as _dt  # noqa: E402
+from google.protobuf import timestamp_pb2 as _ts  # noqa: E402
+
+
+class _ClockDatetime(_dt.datetime):
+
+  @classmethod
+  def utcnow(cls):
+    return _dt.datetime(1970, 1, 1) + _dt.timedelta(seconds=CLOCK[0])
+
+
+class _ClockModule:
+  datetime = _ClockDatetime
+  timedelta = _dt.timedelta
+
+
+def _clock_timestamp():
+  return _ts.Timestamp(seconds=CLOCK[0])
+
+
+vizier_service.datetime = _ClockModule
+vizier_service._get_current_time = _clock_timestamp
+STUBS = ['vizier_service.datetime.utcnow / _get_current_time read the harness clock svc.CLOCK (constant unless advanced)']
+
+
+def new_servicer(pythia=None, database_url=None, recycle_s=60):
+  CLOCK[0] = 1000
+  return vizier_service.VizierServicer(database_url=database_url, default_pythia_service=pythia or StubPythia(),
+                                       early_stop_recycle_period=_dt.timedelta(seconds=recycle_s))
 
 
 def add_study(servicer, state=SA, name=S, display='s'):
